@@ -60,6 +60,9 @@ type metricsSnapshot struct {
 // buffers of every histogram.
 var c18Scrapes int
 
+// c18Serial makes the names of counters registered at run time unique in the process.
+var c18Serial int
+
 func readMetrics() metricsSnapshot {
 	c18Scrapes++
 	rec := httptest.NewRecorder()
@@ -241,10 +244,16 @@ func execC18(t *testing.T, p Plan, src kernel.Source) Result {
 			done chan struct{}
 			snap metricsSnapshot
 			next int
+			// dynamic counter of an observer task
+			dynName    string
+			dynID      uint32
+			registered bool
 		}
+		dyn := p.X["dyncounters"] != 0
+		c18Serial++
 		var obsTasks []*task
 		for i, vs := range p.XV {
-			obsTasks = append(obsTasks, &task{name: fmt.Sprintf("obs%d", i), vals: vs})
+			obsTasks = append(obsTasks, &task{name: fmt.Sprintf("obs%d", i), vals: vs, dynName: fmt.Sprintf("vsim_cdyn_%d_%d", c18Serial, i)})
 		}
 		// one or two scraping tasks: /metrics may be fetched by more than one collector at once
 		nreaders := 1
@@ -278,9 +287,18 @@ func execC18(t *testing.T, p Plan, src kernel.Source) Result {
 			incSum += v
 			go func() {
 				w.Run.NameGoroutine(tk.name)
+				if dyn && !tk.registered {
+					// the task registers a counter of its own first (registration by several
+					// goroutines at once), then counts on it
+					tk.registered = true
+					tk.dynID = metrics.AddCounter(tk.dynName, nil)
+				}
 				metrics.ObserveHist(m.hist[hi], v)
 				metrics.IncCounterBy(m.counter[0], v)
 				metrics.IncCounter(m.counter[1])
+				if dyn {
+					metrics.IncCounterBy(tk.dynID, v&0xffff)
+				}
 				close(tk.done)
 			}()
 		}
@@ -495,6 +513,24 @@ func execC18(t *testing.T, p Plan, src kernel.Source) Result {
 			viol("counter", "count", "counter incremented %d times reports %d", nobs, got)
 			return
 		}
+		// counters registered by the tasks themselves: each under its own name with its own sum
+		if dyn {
+			for _, tk := range obsTasks {
+				var want uint64
+				for _, v := range tk.vals {
+					want += v & 0xffff
+				}
+				got, ok := final.ints[tk.dynName+"|"]
+				if !ok {
+					viol("counter", "registered", "the counter %s that task %s registered and incremented %d times is not reported at all", tk.dynName, tk.name, len(tk.vals))
+					return
+				}
+				if got != want {
+					viol("counter", "registered", "the counter that task %s registered was incremented by a total of %d and is reported as %d", tk.name, want, got)
+					return
+				}
+			}
+		}
 		// mid-run reads never report more than has been started
 		for i, s := range snaps {
 			if s.ints[m.cnames[1]+"|"]-base.ints[m.cnames[1]+"|"] > uint64(nobs) {
@@ -695,6 +731,9 @@ func genC18(seed uint64, tier string) Plan {
 		p.X["reads"] = int64(g.n(4))
 		p.X["coarse"] = int64(g.n(2))
 		p.X["parity"] = int64(g.n(2))
+		if len(p.XV) >= 2 && g.p(1, 3) {
+			p.X["dyncounters"] = 1
+		}
 		if g.p(1, 10) {
 			// the first period starts with a ring buffer's worth of observations
 			p.X["prefill"] = int64(pick(g, []int{32767, 32768, 32768, 32769, 40000}))
@@ -716,7 +755,7 @@ func init() {
 	register(&Prop{
 		ID: "C18", Gen: genC18, Exec: execC18, Enumerate: enumC18,
 		Nontrivial: func(p Plan, r Result) bool { return true },
-		Rule:       "70% interleave runs: 1-4 observer tasks (1-4 observations each: small values, powers of two and neighbours, 2^63-1, random magnitudes; each followed by IncCounterBy(value) and IncCounter) and one reader task (two in a third of the runs, i.e. overlapping scrapes) calling the real /metrics handler 0-3 times; every atomic operation of an observer and every lock operation of package metrics parks and is released by the kernel, so observers and the reader interleave at atomic-operation and lock granularity. In a tenth of the interleave runs the first period is prefilled with 32767-40000 large observations (the ring buffer's size and its neighbours) before the tasks start; an enumerated family of 32 boundary schedules does the same with a scripted schedule (the scrape is driven to the point between extracting and sorting the full period, one or two whole observations of the next period are made there, then the run continues randomly) for every combination of prefill size, sampled or not, and which of the two buffers is live. Periods are reconstructed from the lock log (an observation belongs to the read - of whichever reader - that next takes the histogram's write lock). Per read: count = observations of the period, kept consistent, average, min and max equal, every percentile within [min,max] and one of the period's observations; counters equal the sum / number of increments. 20% bulk runs (no yields): 1..40 or {1,2,3,32767,32768,32769} (thorough also 65536, 65537, 100000) observations per period, several periods, three value distributions. 10% supplementary pure-input sweep (not simulation): bucket index read back through the bhist_* counters is non-decreasing in the value and its upper bound, from a table regenerated from the published Spectator algorithm, is >= the value. Not claimed: asm vs portable bit count; literal data-race freedom. Distinct = distinct plan hash",
+		Rule:       "70% interleave runs: 1-4 observer tasks (1-4 observations each: small values, powers of two and neighbours, 2^63-1, random magnitudes; each followed by IncCounterBy(value) and IncCounter) and one reader task (two in a third of the runs, i.e. overlapping scrapes) calling the real /metrics handler 0-3 times; every atomic operation of an observer and every lock operation of package metrics parks and is released by the kernel, so observers and the reader interleave at atomic-operation and lock granularity. In a tenth of the interleave runs the first period is prefilled with 32767-40000 large observations (the ring buffer's size and its neighbours) before the tasks start; an enumerated family of 32 boundary schedules does the same with a scripted schedule (the scrape is driven to the point between extracting and sorting the full period, one or two whole observations of the next period are made there, then the run continues randomly) for every combination of prefill size, sampled or not, and which of the two buffers is live. Periods are reconstructed from the lock log (an observation belongs to the read - of whichever reader - that next takes the histogram's write lock). Per read: count = observations of the period, kept consistent, average, min and max equal, every percentile within [min,max] and one of the period's observations; counters equal the sum / number of increments; in a third of the runs with two or more observers every observer first registers a counter of its own (concurrent registration) and counts on it: it must be reported under its own name with its own sum. 20% bulk runs (no yields): 1..40 or {1,2,3,32767,32768,32769} (thorough also 65536, 65537, 100000) observations per period, several periods, three value distributions. 10% supplementary pure-input sweep (not simulation): bucket index read back through the bhist_* counters is non-decreasing in the value and its upper bound, from a table regenerated from the published Spectator algorithm, is >= the value. Not claimed: asm vs portable bit count; literal data-race freedom. Distinct = distinct plan hash",
 		Real:       []string{"metrics (counters, histograms, bucket histograms, /metrics endpoint via http.DefaultServeMux)"},
 		Stub:       []string{"sync/atomic and sync.RWMutex of package metrics (yield points owned by the kernel)", "observer and reader tasks", "HTTP transport (httptest.ResponseRecorder)"},
 		RaceTest:   "TestRaceMetrics",
